@@ -543,6 +543,8 @@ def run_check(prop, harnesses, level_text="", tier=None, seed=None, budget_s=Non
     results = []
     deadline = t0 + budget_s
     for i, h in enumerate(harnesses):
+        if tier == "thorough":
+            h.timeout_ms = max(h.timeout_ms, 60000)
         if h.setup:
             h.setup()
         mp_ = h.bounds.get("max_paths", 2_000_000)
